@@ -225,7 +225,7 @@ CLAIMED["C11"] = dict(
          "accepted by checkEquiv as equal; multiplied-out denominators / cancelled brackets / cancel_orb_energy_frac inside "
          "reduce_expr give Lean obligations (ring / field identities over any field of characteristic 0, brackets non-zero) proved in "
          "the same run. One genuine defect repaired (fix:). Inputs are sampled.",
-    note=TB + "Trusted glue: choice of the definition by tensor name + index spaces, numerator distribution and monic brackets (harness), the obligation generator. Residual intermediates (shared symbol 'Zero') and occurrences with repeated actual indices are not covered; RuntimeError refusals of the factorisation are counted, not judged.")
+    note=TB + "Trusted glue: choice of the definition by tensor name + index spaces, numerator distribution and monic brackets (harness), the obligation generator. Residual intermediates (shared symbol 'Zero') and occurrences with repeated actual indices are not covered; RuntimeError refusals of the factorisation (and reduce_expr's own 'Ambiguous signs' refusal) are counted, not judged. Known finding recorded: factor_intermediates on the t2_2 definition with both occupied indices contracted (known_findings.json, deterministic probe). Two genuine defects repaired (fix: commits).")
 
 CLAIMED["C02"] = dict(
     category="translation_validation", design="DESIGN.md §4 C02",
